@@ -19,8 +19,9 @@
 //! of the %epp keys that are neither tokens nor implicit tokens and the one with the smallest span
 //! is printed (the implementation returns whichever its HashMap iterates first).
 use cfgrammar::yacc::ast::{ASTWithValidityInfo, GrammarAST, Symbol};
-use cfgrammar::yacc::AssocKind;
+use cfgrammar::yacc::{AssocKind, YaccGrammar, YaccGrammarError, YaccKind, YaccOriginalActionKind};
 use cfgrammar::{Span, Spanned};
+use std::str::FromStr;
 use gvh::common::*;
 use gvh::util::*;
 use std::fmt::Write;
@@ -236,17 +237,131 @@ fn dump(src: &str, a: &ASTWithValidityInfo) -> String {
     o
 }
 
+fn kind_code(k: YaccKind) -> &'static str {
+    match k {
+        YaccKind::Original(YaccOriginalActionKind::GenericParseTree) => "O",
+        YaccKind::Original(YaccOriginalActionKind::NoAction) => "N",
+        YaccKind::Original(YaccOriginalActionKind::UserAction) => "U",
+        YaccKind::Grmtools => "G",
+        YaccKind::Eco => "E",
+        #[allow(unreachable_patterns)]
+        _ => "?",
+    }
+}
+
+fn errs_line(tag: &str, es: &[YaccGrammarError]) -> String {
+    let mut o = format!("{} {}", tag, es.len());
+    for e in es {
+        let dbg = format!("{:?}", e);
+        let k = dbg.split("kind: ").nth(1).unwrap_or("?");
+        let name: String = k.chars().take_while(|c| c.is_ascii_alphanumeric()).collect();
+        write!(o, " # E {}:{}", name, xh(&format!("{}", e))).unwrap();
+        for s in e.spans() {
+            write!(o, " {} {}", s.start(), s.end()).unwrap();
+        }
+    }
+    o
+}
+
+fn osp(s: Option<Span>) -> String {
+    match s {
+        Some(s) => format!("{} {}", s.start(), s.end()),
+        None => "- -".to_string(),
+    }
+}
+fn ostr(s: Option<&str>) -> String {
+    match s {
+        Some(s) => xh(s),
+        None => "-".to_string(),
+    }
+}
+
+/// Grammar-level transcript (names, structure and every span accessor of `YaccGrammar`), used by the
+/// `FG` / `NG` cases to compare the two construction routes.
+fn gdump(r: Result<YaccGrammar<u32>, Vec<YaccGrammarError>>) -> String {
+    let g = match r {
+        Ok(g) => g,
+        Err(es) => return errs_line("GERR", &es),
+    };
+    let mut o = String::from("GOK");
+    write!(o, " {} {} {} start {} {}", usize::from(g.rules_len()), usize::from(g.prods_len()), usize::from(g.tokens_len()),
+           usize::from(g.start_rule_idx()), usize::from(g.start_prod())).unwrap();
+    for r in g.iter_rules() {
+        let sp = g.rule_name_span(r);
+        write!(o, " # R {} {} {} {}", xh(g.rule_name_str(r)), sp.start(), sp.end(), ostr(g.actiontype(r).as_deref())).unwrap();
+        for p in g.rule_to_prods(r) {
+            write!(o, " {}", usize::from(*p)).unwrap();
+        }
+    }
+    for p in g.iter_pidxs() {
+        let sp = g.prod_span(p);
+        write!(o, " # P {} {} {} {} {}", usize::from(g.prod_to_rule(p)), sp.start(), sp.end(), ostr(g.action(p).as_deref()), osp(g.action_span(p))).unwrap();
+        match g.prod_precedence(p) {
+            Some(pr) => write!(o, " {}:{}", pr.level, assoc_code(pr.kind)).unwrap(),
+            None => o.push_str(" -"),
+        }
+        for s in g.prod(p) {
+            write!(o, " {}", sym_code(s)).unwrap();
+        }
+    }
+    for t in g.iter_tidxs() {
+        write!(o, " # T {} {} {} {}", ostr(g.token_name(t)), osp(g.token_span(t)), ostr(g.token_epp(t)), if g.avoid_insert(t) { "A" } else { "-" }).unwrap();
+        match g.token_precedence(t) {
+            Some(pr) => write!(o, " {}:{}", pr.level, assoc_code(pr.kind)).unwrap(),
+            None => o.push_str(" -"),
+        }
+    }
+    write!(o, " # X {:?} {:?} {}", g.expect(), g.expectrr(), ostr(g.programs().as_deref())).unwrap();
+    match g.parse_param() {
+        Some((n, t)) => write!(o, " {} {}", xh(n), xh(t)).unwrap(),
+        None => o.push_str(" - -"),
+    }
+    write!(o, " {}", ostr(g.parse_generics().as_deref())).unwrap();
+    o
+}
+
+/// Case kinds:
+///   `<kind> <hexsrc>`      ASTWithValidityInfo::new(kind, src)            -> AST transcript (see the module header)
+///   `F <hexsrc>`           ASTWithValidityInfo::from_str(src)             -> `<kind> ` + the same AST transcript, or
+///                                                                            `HDRERR <n> # E <Kind>:x<msg> <s> <e>..`
+///   `NG <kind> <hexsrc>`   YaccGrammar::<u32>::new_with_storaget(kind,src) -> grammar transcript (`gdump`)
+///   `FG <hexsrc>`          YaccGrammar::<u32>::from_str(src)               -> grammar transcript (`gdump`)
 fn main() {
     gvh::quiet_panics();
     for_each_case(|line| {
-        let mut it = line.split_whitespace();
-        let kind = it.next().unwrap_or("O").to_string();
-        let h = it.next().unwrap_or("-");
-        let src = if h == "-" { String::new() } else { unhex(h) };
-        let r = catch(std::panic::AssertUnwindSafe(|| {
-            let a = ASTWithValidityInfo::new(yacckind(&kind), &src);
-            dump(&src, &a)
-        }));
+        let f: Vec<&str> = line.split_whitespace().collect();
+        let kind = f.first().copied().unwrap_or("O").to_string();
+        let text = |k: usize| -> String {
+            match f.get(k).copied() {
+                None | Some("-") => String::new(),
+                Some(h) => unhex(h),
+            }
+        };
+        let r = match kind.as_str() {
+            "F" => {
+                let src = text(1);
+                catch(std::panic::AssertUnwindSafe(|| match ASTWithValidityInfo::from_str(&src) {
+                    Ok(a) => format!("{} {}", kind_code(a.yacc_kind()), dump(&src, &a)),
+                    Err(es) => errs_line("HDRERR", &es),
+                }))
+            }
+            "FG" => {
+                let src = text(1);
+                catch(std::panic::AssertUnwindSafe(|| gdump(YaccGrammar::<u32>::from_str(&src))))
+            }
+            "NG" => {
+                let k = f.get(1).copied().unwrap_or("O").to_string();
+                let src = text(2);
+                catch(std::panic::AssertUnwindSafe(|| gdump(YaccGrammar::<u32>::new_with_storaget(yacckind(&k), &src))))
+            }
+            _ => {
+                let src = text(1);
+                catch(std::panic::AssertUnwindSafe(|| {
+                    let a = ASTWithValidityInfo::new(yacckind(&kind), &src);
+                    dump(&src, &a)
+                }))
+            }
+        };
         match r {
             Ok(s) => s,
             Err(m) => format!("PANIC {}", m.replace('\n', " ")),
